@@ -5,7 +5,7 @@ W="$1"; X="$2"; cd "$W" || exit 2
 export CARGO_NET_OFFLINE=true
 [ -z "$(git diff -- src)" ] || { echo "TREE_NOT_CLEAN"; git checkout -- src; }
 # only the demo of this change may be present while the existing suite runs
-mkdir -p /tmp/confirm_hold && rm -f /tmp/confirm_hold/*; for f in tests/demo_*.rs; do [ "$f" = "tests/demo_$X.rs" ] || mv "$f" /tmp/confirm_hold/ 2>/dev/null; done
+H="$W/.confirm_hold"; mkdir -p "$H"; mv "$H"/*.rs tests/ 2>/dev/null; for f in tests/demo_*.rs; do [ "$f" = "tests/demo_$X.rs" ] || mv "$f" "$H"/ 2>/dev/null; done
 git apply mutant_$X.diff || { echo "APPLY failed"; exit 1; }
 cargo build --offline >/dev/null 2>&1 && echo "BUILD ok" || echo "BUILD failed"
 S1=$(cargo test --offline --lib 2>&1 | grep -E "^test result" | head -1)
@@ -17,4 +17,4 @@ echo "DEMO with change: $D1"
 git apply -R mutant_$X.diff
 D2=$(cargo test --offline --test demo_$X 2>&1 | grep -E "^test result" | head -1)
 echo "DEMO without change: $D2"
-mv /tmp/confirm_hold/*.rs tests/ 2>/dev/null
+mv "$H"/*.rs tests/ 2>/dev/null; rmdir "$H"
